@@ -7,8 +7,8 @@ for meta in sorted(glob.glob("/verif/seeded/*/meta.json")):
     sid = os.path.basename(os.path.dirname(meta))
     kind = m.get("kind", "break")
     summ = re.sub(r"\s+", " ", (m.get("summary") or "")).replace("|", "/")[:150]
-    if kind == "refactor":
-        rows.append(f"| {sid} | refactor | {summ} | {m.get('last_verdict', 'silent')} | {m.get('first_detected', '')} |")
+    if kind in ("refactor", "out-of-scope"):
+        rows.append(f"| {sid} | {kind} | {summ} | {m.get('last_verdict', 'silent')} | {m.get('first_detected', '')} |")
     else:
         rows.append(f"| {sid} | break | {summ} | {m.get('caught_by_rule', ', '.join(m.get('detected_by', [])) or '—')} | {m.get('first_detected', '')} |")
 table = ["| id | kind | change | caught by (rule [key]) / verdict | history |", "|---|---|---|---|---|"] + rows
